@@ -56,3 +56,29 @@ From TrV Require Import Proofs.FullStatements.
 Theorem C08_full : C08_full_statement.
 Proof. exact C08_original. Qed.
 Print Assumptions C08_full.
+
+(* tie to the source, stage 3: the CONTROL SKELETON itself (which statement sits inside which `if`, the order of the
+   guarded blocks, where `break` / `continue` sit, which variable every assignment writes) is read from the C++ source
+   AS IT IS NOW by tools/gen_skel.py (gen/Skel.v) and executed by the interpreter of Skel.v with the guards of
+   gen/Guards.v; the model's step computes the same state, for all values `l0` left in the function-level locals *)
+Require Import TrV.Skel.
+From TrV Require Import Proofs.SkelTie.
+Theorem C08_fwdall_step_skeleton_is_code : forall d p k st c l0,
+  fstate_eq (fwd_step d p k true st c) (run_fwd fwdall_code d p k c GS.gen_fwdall_skel l0 st).
+Proof. exact fwdall_step_skel_tie. Qed.
+Print Assumptions C08_fwdall_step_skeleton_is_code.
+Theorem C08_fwdall_footpath_loop_skeleton_is_code : forall d p k c m r,
+  nth (l_idx (fm_l m)) (fwd_rows d c) row_default = r ->
+  let res := fwd_loop_step fwdall_code d p k c GS.gen_fwdall_fp (m, false) r in
+  snd res = false /\ l_idx (fm_l (fst res)) = S (l_idx (fm_l m)) /\
+  fm_st (fst res) = f_set_triple (fm_st m) (fwd_fp_step p c (o_enter (f_ov (fm_st m) (c_trip c))) (f_triple (fm_st m)) r).
+Proof. exact fwdall_fp_step_skel_tie. Qed.
+Print Assumptions C08_fwdall_footpath_loop_skeleton_is_code.
+(* ... and the whole scan: entry slot as the source computes it, then the loop body iterated with the locals kept from
+   one connection to the next, whatever they hold at the start *)
+Theorem C08_fwdall_scan_skeleton_is_code : forall d p k l_init,
+  outcome_rel fstate_eq (fwd_scan d p k true)
+    (fwd_scan_skel fwdall_code GS.gen_fwdall_skel
+       (G.gen_fwdall_entry_hour (k_dep k) (k_arr k) (k_minAcc k) (k_minEgr k) (q_minw p) (k_maxAcc k) (k_maxEgr k)) l_init d p k).
+Proof. exact fwdall_scan_skel_tie. Qed.
+Print Assumptions C08_fwdall_scan_skeleton_is_code.
